@@ -147,14 +147,151 @@ Proof.
   exact (parse_flags_keeps_changed occ s1 s' (ss_set_changed s v s1 E) H).
 Qed.
 
+(** ** the CSV record written by joinCSV (fix C19-env-exclude-csv) is read back field by field, whatever the
+    fields hold (commas, quotes, leading spaces); CR / LF are outside the one-line reader *)
+Lemma csvc_quoted_body f : forall tail cur acc,
+  csvc ch_comma (csv_escape f ++ tail) SQuo cur acc = csvc ch_comma tail SQuo (rev f ++ cur) acc.
+Proof.
+  induction f as [|c f IH]; intros tail cur acc; [reflexivity|].
+  simpl. destruct (c =? ch_dq) eqn:E.
+  - apply N.eqb_eq in E. subst c. simpl. rewrite IH. rewrite <- app_assoc. reflexivity.
+  - simpl. rewrite E. rewrite IH. rewrite <- app_assoc. reflexivity.
+Qed.
+
+Lemma csvc_qfield_mid f rest acc :
+  csvc ch_comma (ch_dq :: csv_escape f ++ [ch_dq] ++ ch_comma :: rest) SStart [] acc = csvc ch_comma rest SStart [] (f :: acc).
+Proof.
+  simpl. rewrite csvc_quoted_body. simpl. rewrite app_nil_r, rev_involutive. reflexivity.
+Qed.
+
+Lemma csvc_qfield_end f acc :
+  csvc ch_comma (ch_dq :: csv_escape f ++ [ch_dq]) SStart [] acc = Some (rev (f :: acc)).
+Proof.
+  simpl. rewrite csvc_quoted_body. simpl. rewrite app_nil_r, rev_involutive. reflexivity.
+Qed.
+
+Lemma no_special_plain f : existsb csv_special f = false -> plain_pat f.
+Proof.
+  unfold plain_pat. induction f as [|c f IH]; intros H; [reflexivity|].
+  simpl in H. apply orb_false_iff in H. destruct H as [Hc Hf]. simpl. rewrite (IH Hf), andb_true_r.
+  unfold csv_special in Hc. unfold plain_byteb.
+  apply orb_false_iff in Hc. destruct Hc as [Hc H13]. apply orb_false_iff in Hc. destruct Hc as [Hc H10].
+  apply orb_false_iff in Hc. destruct Hc as [Hk Hq]. rewrite Hk, Hq, H10, H13. reflexivity.
+Qed.
+
+Lemma unquoted_plain f : fieldNeedsQuotes f = false -> plain_pat f.
+Proof.
+  destruct f as [|c f]; [reflexivity|]. unfold fieldNeedsQuotes. intros H.
+  apply orb_false_iff in H. destruct H as [H _]. apply orb_false_iff in H. destruct H as [_ H].
+  exact (no_special_plain (c :: f) H).
+Qed.
+
+Lemma csvc_wfield_mid f rest acc :
+  csvc ch_comma (csv_field f ++ ch_comma :: rest) SStart [] acc = csvc ch_comma rest SStart [] (f :: acc).
+Proof.
+  unfold csv_field. destruct (fieldNeedsQuotes f) eqn:E.
+  - change ((ch_dq :: csv_escape f ++ [ch_dq]) ++ ch_comma :: rest)
+      with (ch_dq :: (csv_escape f ++ [ch_dq]) ++ ch_comma :: rest).
+    rewrite <- app_assoc. exact (csvc_qfield_mid f rest acc).
+  - exact (csvc_field f (unquoted_plain f E) rest acc).
+Qed.
+
+Lemma csvc_wfield_end f acc : csvc ch_comma (csv_field f) SStart [] acc = Some (rev (f :: acc)).
+Proof.
+  unfold csv_field. destruct (fieldNeedsQuotes f) eqn:E.
+  - exact (csvc_qfield_end f acc).
+  - exact (csvc_field_end f (unquoted_plain f E) acc).
+Qed.
+
+Lemma csvc_record ps : ps <> [] -> forall acc,
+  csvc ch_comma (csv_record ps) SStart [] acc = Some (rev acc ++ ps).
+Proof.
+  induction ps as [|p ps IH]; intros Hne acc; [congruence|].
+  destruct ps as [|q ps].
+  - simpl. rewrite csvc_wfield_end. reflexivity.
+  - change (csv_record (p :: q :: ps)) with (csv_field p ++ ch_comma :: csv_record (q :: ps)).
+    rewrite csvc_wfield_mid. rewrite (IH ltac:(discriminate)). simpl. rewrite <- app_assoc. reflexivity.
+Qed.
+
+Definition no_crlf (ps : list bytes) : Prop := Forall (fun p => has_crlf p = false) ps.
+
+Lemma has_crlf_escape f : has_crlf (csv_escape f) = has_crlf f.
+Proof.
+  unfold has_crlf. induction f as [|c f IH]; [reflexivity|].
+  simpl. destruct (c =? ch_dq) eqn:E.
+  - apply N.eqb_eq in E. subst c. simpl. exact IH.
+  - simpl. rewrite IH. reflexivity.
+Qed.
+
+Lemma has_crlf_field f : has_crlf (csv_field f) = has_crlf f.
+Proof.
+  unfold csv_field. destruct (fieldNeedsQuotes f); [|reflexivity].
+  change (ch_dq :: csv_escape f ++ [ch_dq]) with ([ch_dq] ++ csv_escape f ++ [ch_dq]).
+  rewrite !has_crlf_app, has_crlf_escape. unfold has_crlf at 1 3. simpl. rewrite orb_false_r. reflexivity.
+Qed.
+
+Lemma has_crlf_record ps : no_crlf ps -> has_crlf (csv_record ps) = false.
+Proof.
+  induction ps as [|p ps IH]; intros H; [reflexivity|].
+  inversion H as [|p' ps' Hp Hps]; subst. destruct ps as [|q ps].
+  - simpl. rewrite has_crlf_field. exact Hp.
+  - change (csv_record (p :: q :: ps)) with (csv_field p ++ [ch_comma] ++ csv_record (q :: ps)).
+    rewrite !has_crlf_app, has_crlf_field, Hp, (IH Hps). reflexivity.
+Qed.
+
+(** the csv reader of pflag gives back every list written by joinCSV *)
+Lemma readAsCSV_joinCSV ps : no_crlf ps -> ps <> [] -> ps <> [[]] -> readAsCSV (joinCSV ps) = EOk ps.
+Proof.
+  intros Hc Hne Hne1.
+  assert (J : joinCSV ps = csv_record ps).
+  { destruct ps as [|p [|q l]]; [congruence| |destruct p; reflexivity]. destruct p; reflexivity. }
+  rewrite J. unfold readAsCSV. pose proof (csvc_record ps Hne []) as R. simpl in R.
+  destruct (csv_record ps) as [|c l] eqn:E.
+  - simpl in R. inversion R as [R']. congruence.
+  - rewrite <- E. rewrite (has_crlf_record ps Hc). rewrite E, R. reflexivity.
+Qed.
+
+Lemma joinCSV_nonempty ps : ps <> [] -> ps <> [[]] -> joinCSV ps <> [].
+Proof.
+  intros Hne Hne1 E.
+  assert (J : joinCSV ps = csv_record ps).
+  { destruct ps as [|p [|q l]]; [congruence| |destruct p; reflexivity]. destruct p; reflexivity. }
+  rewrite J in E. pose proof (csvc_record ps Hne []) as R. rewrite E in R. simpl in R. inversion R. congruence.
+Qed.
+
 (** ** the routes *)
+Lemma effective_env_exact c ps : has_exclude_flag c = true -> no_crlf ps -> ps <> [] -> ps <> [[]] ->
+  effective (mkInv c [] (Some ps)) = EOk ps.
+Proof.
+  intros Hc Hps Hne Hne1. unfold effective. simpl. rewrite Hc. unfold setSchemaEnvFlags, maySetFlag. simpl.
+  pose proof (joinCSV_nonempty ps Hne Hne1) as HJ.
+  destruct (joinCSV ps) as [|x l] eqn:E; [congruence|]. rewrite <- E.
+  unfold ss_set. rewrite (readAsCSV_joinCSV ps Hps Hne Hne1). reflexivity.
+Qed.
+
+Lemma plain_no_crlf ps : plain_pats ps -> no_crlf ps.
+Proof. intros H. eapply Forall_impl; [|exact H]. intros p Hp. exact (has_crlf_plain p Hp). Qed.
+
 Lemma effective_env c ps : has_exclude_flag c = true -> plain_pats ps -> join_comma ps <> [] ->
   effective (mkInv c [] (Some ps)) = EOk ps.
 Proof.
-  intros Hc Hps Hne. unfold effective. simpl. rewrite Hc. unfold setSchemaEnvFlags, maySetFlag. simpl.
-  destruct (join_comma ps) as [|x l] eqn:E; [congruence|]. rewrite <- E.
-  unfold ss_set. rewrite (readAsCSV_join ps Hps ltac:(rewrite E; discriminate)). reflexivity.
+  intros Hc Hps Hne. apply effective_env_exact; [exact Hc|exact (plain_no_crlf ps Hps)| |].
+  - intros ->. apply Hne. reflexivity.
+  - intros ->. apply Hne. reflexivity.
 Qed.
+
+(** before the fix (strings.Join): one env pattern holding a comma came back as two *)
+Definition effective_before_fix (i : invocation) : eres (list bytes) :=
+  if has_exclude_flag (i_cmd i) then
+    match parse_flags sv_zero (i_flags i) with
+    | EErr e => EErr e
+    | EOk s =>
+      match setSchemaEnvFlags_before_fix s (match i_env i with Some l => l | None => [] end) with
+      | EErr e => EErr e
+      | EOk s' => EOk (sv_value s')
+      end
+    end
+  else match i_flags i with [] => EOk [] | _ :: _ => EErr EInternal end.
 
 Lemma effective_one_flag c ps e : has_exclude_flag c = true -> plain_pats ps -> join_comma ps <> [] ->
   effective (mkInv c [join_comma ps] e) = EOk ps.
